@@ -26,6 +26,20 @@ def norm(l):
     return l
 
 
+def flatten_args(args):
+    """arguments bundled into a private struct (`KnownNames { imports, declared_parcelables, defined }`) count as the arguments themselves, in field order"""
+    out = []
+    for x in args:
+        y = x
+        while isinstance(y, tuple) and y and y[0] in ("ref",) and len(y) >= 2:
+            y = y[1]
+        if isinstance(y, tuple) and len(y) == 4 and y[0] == "adt" and isinstance(y[1], str) and y[1].startswith("validation::") and y[2] is None:
+            out.extend(v for _, v in sorted(y[3]))
+        else:
+            out.append(x)
+    return tuple(out)
+
+
 def name_set(field):
     return ("call", "std::iter::Iterator::collect", (("adt", "iter:map", None, ((0, ("iter", "%s.%s" % (AST, field))), (1, "QN"))),))
 
@@ -150,9 +164,9 @@ def rule(ctx, rep, prop, focus):
             if want_n == 0:
                 rep.ok("PL", key, {"stage": short, "item": kind, "calls": 0})
                 continue
-            a = got[0]
+            a = flatten_args(got[0])
             rt = by.get(V + "resolve_types", [None])[0]
-            rt_call = ("call", V + "resolve_types", rt) if rt is not None else None
+            rt_call = ("call", V + "resolve_types", rt) if rt is not None else None   # (the label of the call keeps the arguments as written)
             ci = by.get(V + "check_imports", [None])[0]
             ci_call = ("call", V + "check_imports", ci) if ci is not None else None
             ok = False
